@@ -137,7 +137,14 @@ def gen_rt(rng, nmax=5, max_cells=96, force=None):
     if nvdim > 1 and rng.random() < 0.12:
         labels = vd or (["x", "y", "z"][:nvdim] if nvdim <= 3 else [f"v{i}" for i in range(nvdim)])
         vmap = [[l, rng.choice(dd + [None])] for l in labels]
-    return dict(kind="rt", n=n, cell=[Q(c) for c in cell], pmin=[Q(p) for p in pmin], rkind=rkind,
+    free = None
+    if rkind == "f" and not subs and rng.random() < 0.6:
+        # no subregions -> no arithmetic on the geometry anywhere on the code path: arbitrary binary64 corners
+        sc = 10.0 ** rng.randint(-12, 6)
+        lo = [rng.uniform(-3, 3) * sc for _ in range(ndim)]
+        free = dict(lo=lo, hi=[a + rng.choice([1 / 3, 0.1, 0.7, 2.5, 1e-3]) * sc * rng.uniform(0.5, 2) for a in lo])
+        tol = rng.choice([tol, ["f", Q(1e-9)], ["f", Q(1e-6)], ["f", Q(rng.uniform(0, 1e-3))]])
+    return dict(kind="rt", free=free, n=n, cell=[Q(c) for c in cell], pmin=[Q(p) for p in pmin], rkind=rkind,
                 swap=[rng.random() < 0.3 for _ in range(ndim)], dims=dims, units=units, tol=tol, bc=bc, subs=subs,
                 nvdim=nvdim, vdims=vd, unit=unit, dtype=dtype, special=special, density=rng.choice([1.0, 1.0, 0.8, 0.5, 0.0]),
                 vmap=vmap, suffix=rng.choice([".h5", ".hdf5"]), sub=rng.getrandbits(32))
@@ -160,17 +167,18 @@ def cases(rng, tier):
             for skind in "if":
                 for dtype in ("f8", "c16", "i8"):
                     yield gen_rt(rng, force=dict(ndim=ndim, rkind=rkind, skind=skind, dtype=dtype, nsub=rng.choice([1, 2, 3])))
-    for _ in range(330 if quick else 5000):
+    for _ in range(1300 if quick else 4500):
         yield gen_rt(rng)
     for t in TAMPERS:
-        for _ in range(3 if quick else 25):
+        for _ in range(6 if quick else 25):
             base = gen_rt(rng, force=dict(nsub=rng.choice([1, 2, 3])) if t.startswith("sub_") else
                           (dict(nvdim=rng.choice([2, 3, 4])) if t in ("vdims_none", "vdims_dup", "vdims_short") else None))
             base["kind"] = "tamper"
+            base["free"] = None
             base["tamper"] = t
             base["special"] = False
             yield base
-    for _ in range(40 if quick else 500):
+    for _ in range(80 if quick else 500):
         base = gen_rt(rng, force=dict(dtype=rng.choice(["f8", "f8", "c16", "i8"])))
         base["kind"] = "legacy"
         base["special"] = False
@@ -200,6 +208,8 @@ def _num(kind, x):
 def build_mesh(c):
     cell, pmin, pmax = _geometry(c)
     ndim = len(c["n"])
+    if c.get("free"):
+        pmin, pmax = [Fraction(x) for x in c["free"]["lo"]], [Fraction(x) for x in c["free"]["hi"]]
     p1 = [_num(c["rkind"], b if s else a) for a, b, s in zip(pmin, pmax, c["swap"])]
     p2 = [_num(c["rkind"], a if s else b) for a, b, s in zip(pmin, pmax, c["swap"])]
     kw = {}
@@ -234,10 +244,14 @@ def gen_array(c, mesh):
                 for _ in range(size)]
         a = np.array(vals, dtype=dt).reshape(shape)
     elif kind == "f":
-        a = np.array([rng.randint(-64, 64) / 2 ** rng.randint(0, 4) for _ in range(size)], dtype=dt).reshape(shape)
+        # short dyadics and full-mantissa numbers (nothing on this code path computes with them)
+        def val():
+            return rng.randint(-64, 64) / 2 ** rng.randint(0, 4) if rng.random() < 0.6 else rng.uniform(-1, 1) * 10.0 ** rng.randint(-12, 8)
+        a = np.array([val() for _ in range(size)], dtype=dt).reshape(shape)
     else:
-        a = np.array([complex(rng.randint(-32, 32) / 2 ** rng.randint(0, 3), rng.randint(-32, 32) / 2 ** rng.randint(0, 3))
-                      for _ in range(size)], dtype=dt).reshape(shape)
+        def val():
+            return rng.randint(-32, 32) / 2 ** rng.randint(0, 3) if rng.random() < 0.6 else rng.uniform(-1, 1) * 10.0 ** rng.randint(-9, 6)
+        a = np.array([complex(val(), val()) for _ in range(size)], dtype=dt).reshape(shape)
     if c.get("special"):
         flat = a.reshape(-1)
         for _ in range(max(1, size // 6)):
@@ -306,14 +320,16 @@ def mesh_json(m):
 
 
 def darr_json(a):
-    """typed array -> model JSON; non-finite entries are replaced by 0 (their bit patterns are checked by the oracle)"""
+    """typed array -> model JSON; values as ONE space-separated string of canonical rationals (complex: re im re im ...);
+    non-finite entries are replaced by 0 (their bit patterns are checked by the oracle)"""
     a = np.asarray(a)
     kind = a.dtype.kind
     flat = a.reshape(-1)
     if kind == "c":
-        def q(x):
-            return Q(float(x)) if np.isfinite(x) else "0"
-        v = [[q(z.real), q(z.imag)] for z in flat.tolist()]
+        v = []
+        for z in flat.tolist():
+            v.append(Q(float(z.real)) if np.isfinite(z.real) else "0")
+            v.append(Q(float(z.imag)) if np.isfinite(z.imag) else "0")
         k = "c"
     elif kind == "f":
         v = [Q(float(x)) if np.isfinite(x) else "0" for x in flat.tolist()]
@@ -323,14 +339,15 @@ def darr_json(a):
         k = "i"
     else:
         raise core.MachineryError(f"unexpected dtype {a.dtype}")
-    return dict(k=k, shape=[int(s) for s in a.shape], v=v)
+    return dict(k=k, shape=[int(s) for s in a.shape], v=" ".join(v))
 
 
 def darr_pairs(j):
     """model/impl array JSON -> list of (re, im) Fractions"""
-    if j["k"] == "c" or (j["v"] and isinstance(j["v"][0], list)):
-        return [(F(p[0]), F(p[1])) for p in j["v"]]
-    return [(F(x), Fraction(0)) for x in j["v"]]
+    xs = [F(x) for x in j["v"].split(" ")] if j["v"] else []
+    if j["k"] == "c":
+        return list(zip(xs[0::2], xs[1::2]))
+    return [(x, Fraction(0)) for x in xs]
 
 
 def varr_json(a):
@@ -382,6 +399,8 @@ def file_json(path):
         reg = dict(pmin=numarr_json(gr.attrs["pmin"]), pmax=numarr_json(gr.attrs["pmax"]), dims=_attr_strs(gr.attrs["dims"]),
                    units=_attr_strs(gr.attrs["units"]), ndim=int(gr.attrs["ndim"]), tol=num_json(gr.attrs["tolerance_factor"]))
         extra["region_shapes"] = [list(np.shape(gr.attrs[k])) for k in ("pmin", "pmax", "dims", "units")]
+        extra["num_dtypes"] = [str(np.asarray(gr.attrs["pmin"]).dtype), str(np.asarray(gr.attrs["pmax"]).dtype),
+                               str(np.asarray(gr.attrs["tolerance_factor"]).dtype), str(np.asarray(gm.attrs["n"]).dtype)]
         subs = None
         if "subregions" in gm:
             t = gm["subregions"]
@@ -740,6 +759,8 @@ def run_impl(case):
         if case.get("vmap"):
             obs["tags"].append("custom-mapping")
         snap = (bits(f.array), bits(f.valid), json.dumps(mesh_json(f.mesh), sort_keys=True))
+        r_ = f.mesh.region
+        obs["mem_dtypes"] = [str(r_.pmin.dtype), str(r_.pmax.dtype), str(np.asarray(r_.tolerance_factor).dtype), str(f.mesh.n.dtype)]
 
         if case["kind"] == "legacy":
             path = os.path.join(tmp, "legacy" + case["suffix"])
@@ -771,11 +792,15 @@ def run_impl(case):
         f.to_file(path)
         if (bits(f.array), bits(f.valid), json.dumps(mesh_json(f.mesh), sort_keys=True)) != snap:
             fail("to_file modified the field")
-        fj = file_json(path)
-        obs["file_written"] = strip(fj)
-        obs["layout"] = fj["_"]["layout"]
-        obs["extra"] = {k: v for k, v in fj["_"].items() if not k.endswith("_raw") and k != "layout"}
-        oracle_file(f, fj, fail)
+        view = _try(lambda: file_json(path))
+        if view[0] == "ok":
+            fj = view[1]
+            obs["file_written"] = strip(fj)
+            obs["layout"] = fj["_"]["layout"]
+            obs["extra"] = {k: v for k, v in fj["_"].items() if not k.endswith("_raw") and k != "layout"}
+            oracle_file(f, fj, fail)
+        else:
+            obs["view_error"] = view[1]
 
         if case["kind"] == "rt":
             res = _try(lambda: df.Field.from_file(path))
@@ -827,10 +852,9 @@ def model_requests(case, obs):
         return []
     if case["kind"] == "rt":
         if "file_written" not in obs:
-            return []
+            return [dict(op="inv", field=obs["state"])]
         reqs = [dict(op="save", field=obs["state"]), dict(op="load", file=obs["file_written"]),
-                dict(op="loaded", field=obs["state"]), dict(op="roundtrip", field=obs["state"]),
-                dict(op="inv", field=obs["state"])]
+                dict(op="spec", field=obs["state"], file=obs["file_written"]), dict(op="inv", field=obs["state"])]
         if "loaded" in obs:
             reqs.append(dict(op="inv", field=obs["loaded"]))
         return reqs
@@ -867,6 +891,8 @@ def _cmp_darr(name, a, b, dis):
         dis.append(f"{name}: dtype kind impl {a['k']} vs model {b['k']}")
     if a["shape"] != b["shape"]:
         dis.append(f"{name}: shape impl {a['shape']} vs model {b['shape']}")
+        return
+    if a["v"] == b["v"] and a["k"] == b["k"]:
         return
     pa, pb = darr_pairs(a), darr_pairs(b)
     if pa != pb:
@@ -962,13 +988,15 @@ def compare(case, obs, rs):
         elif "ok" in d:
             cmp_state("legacy(documented)", obs["doc_state"], d["ok"], dis)
         return dis
+    if case["kind"] == "rt" and "view_error" in obs:
+        return [f"written file does not have the documented layout (h5py view failed: {obs['view_error']})"]
     if case["kind"] == "rt":
-        saved, ld, spec, rtr, inv = rs[:5]
+        saved, ld, spec, inv = rs[:4]
         # the hypotheses of the round-trip theorems, evaluated on the state of the real field
         if not inv["ok"]:
             dis.append(f"theorem hypothesis Inv does not hold for the state of a field built by the real constructors "
                        f"(region {inv['region']}, mesh {inv['mesh']})")
-        if len(rs) > 5 and not rs[5]["ok"]:
+        if len(rs) > 4 and not rs[4]["ok"]:
             dis.append("theorem hypothesis Inv does not hold for the state of the field returned by from_file")
         if inv["ok"] and inv["unit_ok"] and inv["exact"] and "loaded" in obs and obs["loaded"] != obs["state"]:
             dis.append("hypotheses of h5_roundtrip (exact) hold but the field read back differs from the field written")
@@ -980,6 +1008,8 @@ def compare(case, obs, rs):
         nd = len(obs["state"]["mesh"]["n"])
         if ex["region_shapes"] != [[nd]] * 4:
             dis.append(f"file region attribute shapes {ex['region_shapes']}")
+        if ex.get("num_dtypes") != obs["mem_dtypes"]:
+            dis.append(f"file dtypes of pmin/pmax/tolerance_factor/n {ex.get('num_dtypes')} vs in memory {obs['mem_dtypes']} (narrowing cast)")
         if ex.get("valid_dtype") != "bool":
             dis.append(f"file valid dtype {ex.get('valid_dtype')}")
         if obs["state"]["mesh"]["subs"] and ex.get("table_shape") != [len(obs["state"]["mesh"]["subs"]), 2 * nd]:
@@ -988,10 +1018,12 @@ def compare(case, obs, rs):
             dis.append(f"from_file: impl {obs['res']} vs model {'ok' if 'ok' in ld else ld}")
         elif "ok" in ld:
             cmp_state("from_file", obs["loaded"], ld["ok"], dis)
-            if inv["ok"] and inv["unit_ok"]:   # hypotheses of h5_roundtrip_loaded
-                cmp_state("from_file vs spec loaded(f)", obs["loaded"], spec["ok"], dis)
-        if "ok" not in rtr or (("ok" in ld) and rtr["ok"] != ld["ok"]):
+            if inv["ok"] and inv["unit_ok"] and not spec["load_eq_loaded"]:   # hypotheses of h5_roundtrip_loaded
+                dis.append("model reader on the h5py view differs from the spec loaded(f) although the theorem's hypotheses hold")
+        if not spec["rt_eq_load"]:
             dis.append("model: h5Load (h5Save f) differs from h5Load of the h5py view")
+        if not dis and not spec["store_eq"]:
+            dis.append("model store h5Save f differs from the h5py view in a way the field-by-field comparison does not show")
         return dis
     r = rs[0]
     if ("ok" in r) != (obs["res"] == "ok"):
